@@ -130,6 +130,14 @@ func evalC11(e *Eval) {
 			e.Fail("analysis-completes", pi.Where, "analysis died with a runtime error: "+pi.String())
 		} else {
 			e.Res.Outcome = "refused: " + trunc(pi.Msg, 40)
+			// an interface of the tree with implementers in its own package is a union: refusing it
+			// as an unsupported interface means it was not detected
+			for it, members := range ref {
+				if strings.Contains(pi.Msg, "unsupported type "+it.Underlying().String()) {
+					e.Fail("union-iff-implementers", "union refused as an unsupported interface", fmt.Sprintf("%s has implementers in its own package (%s) but the analysis stops with %q", it, namedNames(members), trunc(pi.Msg, 120)))
+					break
+				}
+			}
 		}
 		return
 	}
